@@ -232,6 +232,32 @@ func c15Sources(c *ctx) {
 		r := c.rng(int64(batch))
 		nvals := c.pick(8, 60)
 		idx := 0
+		// the defaults as the very first load of this process sees them, and that load's result kept in hand: neither may
+		// change because other configurations are loaded afterwards
+		held, herr := config.Load([]string{"fabio"}, nil)
+		var pristine []byte
+		if herr == nil && held != nil {
+			pristine, _ = json.Marshal(held)
+		}
+		defaultsIntact := func(o c15Opt, v1, v2 string) {
+			if pristine == nil {
+				return
+			}
+			c.R.Eval(1)
+			if again, _ := json.Marshal(held); !bytes.Equal(again, pristine) {
+				c.R.Violate("c15:returned-config-changed-by-later-load", fmt.Sprintf("a configuration returned earlier changed after option %s was loaded with %q / %q:\n was %.600s\n now %.600s", o.Name, v1, v2, c15Diff(pristine, again), c15Diff(again, pristine)), map[string]any{"option": o.Name, "v1": v1, "v2": v2})
+				pristine = nil
+				return
+			}
+			fresh, err := config.Load([]string{"fabio"}, nil)
+			if err != nil || fresh == nil {
+				return
+			}
+			if now, _ := json.Marshal(fresh); !bytes.Equal(now, pristine) {
+				c.R.Violate("c15:defaults-changed-by-earlier-load", fmt.Sprintf("after option %s was loaded with %q / %q a load without any source no longer yields the defaults:\n default %.600s\n now     %.600s", o.Name, v1, v2, c15Diff(pristine, now), c15Diff(now, pristine)), map[string]any{"option": o.Name, "v1": v1, "v2": v2})
+				pristine = nil
+			}
+		}
 		for oi, o := range opts {
 			if oi%nb != batch {
 				continue
@@ -261,6 +287,7 @@ func c15Sources(c *ctx) {
 				progress(caseIdx, fmt.Sprintf("option %s values %q %q", o.Name, v1, v2))
 				c15Equivalence(c, r, o, v1, xa)
 				c15Precedence(c, r, o, v1, v2, xa)
+				defaultsIntact(o, v1, v2)
 				for i := 0; i < 40; i++ { // fixed PRNG consumption per case (see above)
 				}
 			}
@@ -518,4 +545,21 @@ func c15Hostile(r *rand.Rand, opts []c15Opt) (args, env []string, props string, 
 		hostile = true
 	}
 	return
+}
+
+// c15Diff returns the part of a around the first byte where it differs from b.
+func c15Diff(a, b []byte) string {
+	i := 0
+	for i < len(a) && i < len(b) && a[i] == b[i] {
+		i++
+	}
+	lo := i - 80
+	if lo < 0 {
+		lo = 0
+	}
+	hi := i + 200
+	if hi > len(a) {
+		hi = len(a)
+	}
+	return string(a[lo:hi])
 }
